@@ -29,6 +29,8 @@ inline void sample(std::string const& s) { if (g_samples++ < 8) std::printf("SAM
 inline int finish() { long tot = 0; for (auto& kv : g_cases) { std::printf("STAT fn=%s cases=%ld\n", kv.first.c_str(), kv.second); tot += kv.second; } std::printf("TOTAL cases=%ld fails=%ld\n", tot, g_total_fail); return g_total_fail ? 1 : 0; }
 template<class T> inline std::string str(T const& v) { std::ostringstream o; o.precision(17); o << v; return o.str(); }
 // max that keeps a NaN operand (std::max silently drops it, and a NaN matrix element would then pass every "difference <= tolerance" test)
+// |x| that is +infinity for a NaN argument: `nabs(difference) > tolerance` then reports a NaN result instead of silently accepting it
+inline long double nabs(long double x) { return x != x ? std::numeric_limits<long double>::infinity() : (x < 0 ? -x : x); }
 inline long double nmax(long double a, long double b) { return (a != a || b != b) ? std::numeric_limits<long double>::quiet_NaN() : (a < b ? b : a); }
 inline uint32_t f2u(float f) { uint32_t u; std::memcpy(&u, &f, 4); return u; }
 inline float u2f(uint32_t u) { float f; std::memcpy(&f, &u, 4); return f; }
